@@ -663,13 +663,13 @@ fn window_case(big_share: u32) -> impl Strategy<Value = WindowCase> {
     (graph(big_share), langs).prop_flat_map(|(graph, lang)| {
         let len = graph.len();
         (
-            prop_oneof![2 => Just(None), 1 => opt_pred(lang, Base::Scan)],
+            prop_oneof![1 => Just(None), 1 => opt_pred(lang, Base::Scan)],
             prop_oneof![1 => Just(None), 4 => bound(len).prop_map(Some)],
             prop_oneof![1 => Just(None), 4 => bound(len).prop_map(Some)],
             any::<bool>(),
             // GraphQL's orderBy is rejected by the planner (Err = cannot express): mostly unordered there
-            if lang == Lang::GraphQL { prop_oneof![1 => Just(true), 4 => Just(false)].boxed() } else { prop_oneof![3 => Just(true), 2 => Just(false)].boxed() },
-            any::<bool>(),
+            if lang == Lang::GraphQL { prop_oneof![1 => Just(true), 4 => Just(false)].boxed() } else { prop_oneof![1 => Just(true), 1 => Just(false)].boxed() },
+            prop_oneof![2 => Just(true), 1 => Just(false)],
         )
             .prop_map(move |(pred, skip, limit, desc, ordered, ret_node)| WindowCase { graph: graph.clone(), lang, pred, skip, limit, desc, ordered, ret_node })
     })
@@ -967,6 +967,6 @@ pub fn run(r: &mut Run) {
     r.subcheck("tlp", r.cases(900, 14_000), || tlp_case(big), check_tlp);
     r.subcheck("count", r.cases(250, 4_000), || count_case(big + 4), check_count);
     r.subcheck("distinct", r.cases(250, 4_000), || distinct_case(big + 4), check_distinct);
-    r.subcheck("window", r.cases(400, 6_000), || window_case(35), check_window);
+    r.subcheck("window", r.cases(1200, 12_000), || window_case(35), check_window);
     r.subcheck("union", r.cases(200, 3_000), || union_case(big + 4), check_union);
 }
